@@ -36,7 +36,7 @@ Proof. exact burn_preserves_supply_inv. Qed.
 Print Assumptions C15_burn_preserves_supply_inv.
 
 (** For every sequence of Haqq operations (coinomics mint, redirected or plain
-    burn, DAO fund, liquidate, redeem, ERC20 conversions of native coins and of
+    burn of one coin or of a coin list, DAO fund, liquidate, redeem, ERC20 conversions of native coins and of
     registered tokens, EVM SetBalance, plain sends / mints; failed operations
     leave no trace) from any state satisfying the invariant: afterwards the
     balances still add up to the supply in every denomination and no balance is
@@ -73,6 +73,43 @@ Theorem C15_redirect_preserves_distr_account_inv :
 Proof. exact redirect_preserves_distr_account_inv. Qed.
 Print Assumptions C15_redirect_preserves_distr_account_inv.
 
+(** The same for a coin LIST: [BurnCoins(module, amounts)] takes sdk.Coins, and a governance deposit may
+    hold several denominations (gov accepts any denomination).  [amount_of cs d] is Coins.AmountOf.  If the
+    redirected burn of the list succeeds then the supply is unchanged and, in EVERY denomination d', exactly
+    [amount_of cs d'] leaves the module and exactly that reaches the distribution account and the community
+    pool; the list was valid (no denomination twice, every amount positive) and covered by the module. *)
+Theorem C15_redirect_coins_exact :
+  forall s m (cs : list (N * Z)) s', redirected m = true -> m <> M_DISTR -> haqq_burn_coins s m cs = Some s' ->
+    sup (bk s') = sup (bk s) /\
+    (forall d', zget (pool s') d' = zget (pool s) d' + amount_of cs d') /\
+    outst s' = outst s /\
+    (forall a' d', balance (bk s') a' d' = balance (bk s) a' d'
+        - (if decide (m = a') then amount_of cs d' else 0) + (if decide (M_DISTR = a') then amount_of cs d' else 0)) /\
+    NoDup (map fst cs) /\
+    (forall d x, In (d, x) cs -> amount_of cs d = x /\ 0 < x <= balance (bk s) m d).
+Proof. exact redirect_coins_exact. Qed.
+Print Assumptions C15_redirect_coins_exact.
+
+(** ... hence the redirected burn of a whole coin list keeps "community pool + outstanding rewards <=
+    balance of the distribution account" in every denomination. *)
+Theorem C15_redirect_coins_preserves_distr_account_inv :
+  forall s m (cs : list (N * Z)) s', redirected m = true -> haqq_burn_coins s m cs = Some s' ->
+    (forall d, zget (pool s) d + zget (outst s) d <= balance (bk s) M_DISTR d) ->
+    (forall d, zget (pool s') d + zget (outst s') d <= balance (bk s') M_DISTR d).
+Proof. exact redirect_coins_preserves_distr_account_inv. Qed.
+Print Assumptions C15_redirect_coins_preserves_distr_account_inv.
+
+(** Non-vacuity of the two: a deposit of two denominations is redirected as a whole (see [demo_ops]), and a
+    list of which one coin is not covered, a denomination written twice or a zero amount moves nothing. *)
+Theorem C15_redirect_coins_all_or_nothing :
+  let s := run demo_ops st0 in
+  let rejected (cs : list (N * Z)) := match haqq_burn_coins s M_GOV cs with None => true | Some _ => false end in
+  rejected [(7%N, 8); (BASE, 1)] = true /\ rejected [(7%N, 2); (7%N, 2)] = true /\ rejected [(7%N, 0)] = true /\
+  option_map (fun s' => (zget (pool s') 7%N, balance (bk s') M_DISTR 7%N, balance (bk s') M_GOV 7%N))
+             (haqq_burn_coins s M_GOV [(7%N, 8)]) = Some (20, 20, 0).
+Proof. exact demo_burn_coins_all_or_nothing. Qed.
+Print Assumptions C15_redirect_coins_all_or_nothing.
+
 (** More generally no sequence of Haqq operations that never names the
     distribution account as the paying side can make it unable to pay. *)
 Theorem C15_haqq_ops_preserve_distr_account_inv_partial :
@@ -90,6 +127,13 @@ Theorem C15_plain_burn_exact :
     pool s' = pool s /\ outst s' = outst s.
 Proof. exact plain_burn_exact. Qed.
 Print Assumptions C15_plain_burn_exact.
+
+Theorem C15_plain_burn_coins_exact :
+  forall s m (cs : list (N * Z)) s', redirected m = false -> haqq_burn_coins s m cs = Some s' ->
+    (forall d', zget (sup (bk s')) d' = zget (sup (bk s)) d' - amount_of cs d') /\
+    pool s' = pool s /\ outst s' = outst s.
+Proof. exact plain_burn_coins_exact. Qed.
+Print Assumptions C15_plain_burn_coins_exact.
 
 (** Non-vacuity: the empty chain satisfies both invariants, and there is a
     history in which every kind of operation succeeds (so the implications above
